@@ -457,3 +457,47 @@ func VerifC01NumLabels() {
 	}
 	vObserve(len(gv), len(gu))
 }
+
+func init() { vRegister("VerifC01PackedLengths", VerifC01PackedLengths) }
+
+// VerifC01PackedLengths: packed repeated fields whose payload length sits at
+// the varint size boundaries (126..130 and 16382..16386 bytes: one-, two- and
+// three-byte length prefixes) round-trip: a sample with that many one-byte
+// values / location ids, the first and last of them symbolic.
+func VerifC01PackedLengths() {
+	lens := []int{126, 127, 128, 129, 130, 16383, 16384}
+	n := lens[vChoice("len", vBound("c01.packedlens", 5))]
+	first, last := vInt64("first"), vInt64("last")
+	for _, v := range []int64{first, last} {
+		vAssume(v >= 0)
+		vAssume(v <= 127)
+	}
+	xs := make([]int64, n)
+	ids := make([]uint64, n)
+	for i := range xs {
+		xs[i] = int64(i % 100)
+		ids[i] = uint64(1 + i%100)
+	}
+	xs[0], xs[n-1] = first, last
+	s := &Sample{Value: xs, locationIDX: ids}
+	var b buffer
+	s.encode(&b)
+	out := &Sample{}
+	var b2 buffer
+	b2.typ = 2
+	b2.data = b.data
+	err := decodeMessage(&b2, out)
+	vReach("C01.packedlen:decoded")
+	if err != nil || len(out.Value) != n || len(out.locationIDX) != n {
+		vAssert(false, "C01.packedlen.len: a packed field whose payload length is at a varint boundary does not decode to the same number of elements")
+		return
+	}
+	ok := vAnd(out.Value[0] == first, out.Value[n-1] == last)
+	for i := 1; i < n-1; i++ {
+		if out.Value[i] != xs[i] || out.locationIDX[i] != ids[i] {
+			ok = false
+		}
+	}
+	vAssert(ok, "C01.packedlen.value: an element of a long packed field changed")
+	vObserve(len(b.data))
+}
